@@ -4,50 +4,69 @@ import collections
 MANIFEST = dict(
     module="Defs", ref="§5 C13",
     text="The reference machine Defs.tla (every helper registers the style ids it emits; the styles part is rewritten from the "
-         "registry at every save; numbering and note definitions belong to the document and only grow) is model-checked "
-         "exhaustively; TLC-generated operation sequences mixing style creation/change/removal, styled content (headings, "
-         "quotes/code via Markdown, TOC helpers, table style templates), lists, notes, saves, reopen (same and fresh process) and "
-         "opening synthesised foreign packages with their own styles/numbering are executed on the real library, once saving "
-         "where the behaviour says and once saving after every step; every saved package is read by the independent OPC reader "
-         "and judged by Defs_Trace.tla (ids resolved across parts; added/changed styles present in the next save).",
+         "registry at every save; RemoveStyle removes the one style named, styles based on it stay; numbering and note definitions "
+         "belong to the document and only grow; two documents of one process do not touch each other; reading changes nothing) is "
+         "model-checked exhaustively; TLC-generated operation sequences mixing style creation (on a built-in, custom or unknown "
+         "base, several levels deep)/change/removal, styled content (headings, quotes/code via Markdown, TOC helpers, table style "
+         "templates), lists, notes, read accesses (Look), saves, reopen (same and fresh process), opening synthesised foreign "
+         "packages with their own styles/numbering and switching between two documents alive in the process are executed on the "
+         "real library three times: saving where the behaviour says, saving after every step, and blind (no read access to the "
+         "document by the observer between the operations); every saved package is read by the independent OPC reader and judged "
+         "by Defs_Trace.tla (ids resolved across parts; styles added/changed through the style API and not removed by the caller "
+         "present in the next save with their content and base).",
     technique="TLA+ spec Defs; TLC exhaustive MC + TLC-generated behaviours replayed on the library + TLC trace judge",
 )
 
 LEVEL = "model_checking"
-RULE = ("behaviours = every sequence of the operation alphabet up to the tier's BFS depth enumerated by TLC, plus seeded "
-        "random longer ones; each is executed twice on the real library (saving as generated + once at the end; saving after "
-        "every step); after every step the in-memory registry/body and, at every save, the written package are projected and "
-        "judged by Defs_Trace.tla: style ids emitted by library helpers resolve in the styles part, numIds resolve to num and "
-        "abstractNum, note ids resolve, styles added/changed through the style API are in the next save with their current content")
+RULE = ("behaviours = every sequence of the operation alphabet up to the tier's BFS depth enumerated by TLC (whole alphabet and "
+        "focused alphabets: styles with hierarchies, toc, registries, two documents, tables), plus seeded random longer ones; each "
+        "is executed three times on the real library (A: saving as generated + once at the end; B: saving after every step; C: the "
+        "schedule of A without any accessor call by the observer); after every step the in-memory registry/body of the current "
+        "document (A, B) and, at every save, the written package are projected and judged by Defs_Trace.tla: style ids emitted by "
+        "library helpers resolve in the styles part, numIds resolve to num and abstractNum, note ids resolve, the parts are "
+        "well-formed, styles added/changed through the style API are in the next save with their current content and base - also "
+        "when the registry lost them without the caller removing them (style-lost)")
 
 ASSUMPTIONS = [
     "a style id the caller passes to SetStyle / TableStyleConfig.StyleID that is not in the document's registry at the time of "
     "the call is a caller error and is not reported (by = SetStyle:unregistered / ApplyTableStyle:unregistered)",
     "a reference to a style the caller removed with RemoveStyle (and did not add again) is not reported; likewise the text marker "
-    "of a note the caller removed with RemoveFootnote/RemoveEndnote",
+    "of a note the caller removed with RemoveFootnote/RemoveEndnote. Removing a style is not removing the styles based on it: "
+    "those must stay defined (their dangling basedOn is not judged - the property speaks of ids used in the body)",
     "the library writes note references as text markers '[n]' / '[尾注n]' at the end of the paragraph AddFootnote/AddEndnote "
     "creates; these markers (and real w:footnoteReference / w:endnoteReference elements) are the note ids referred to",
     "a style counts as changed when its w:rPr/w:sz carries one of the harness's version tokens; 'present in the next save' is "
-    "checked for the ids added/changed through the style API since the previous save (not for registry entries the loader adds)",
+    "checked for the ids added/changed through the style API since the previous save (not for registry entries the loader adds); "
+    "the base (w:basedOn) is compared for the styles the behaviour itself adds",
     "numbering/notes/styles parts are located through the main part's relationships with a fall-back to the conventional part "
     "name (a misplaced relationship is property C02's concern)",
+    "in the blind variant (C) nothing is observed in memory; the judge resynchronises on what variant A observed at the same "
+    "step of the same behaviour (the library is deterministic for a given behaviour and seed), so a difference between an "
+    "observed and an unobserved run shows in the saved package only",
+    "two documents: Switch makes the other document of the process current (a new document the first time); only the current "
+    "document is projected and saved. Isolation of the in-memory state is property C07's concern; here the saved package of "
+    "either document must resolve its ids whatever was done to the other one in between",
+    "note texts get different lengths (step index) so that notes parts of different documents differ in size",
 ]
 
 ALLOPS = ["AddHeading", "SetStyle", "AddStyle", "ModifyStyle", "RemoveStyle", "GenerateTOC", "AutoGenerateTOC", "UpdateTOC",
           "TOCEntry", "ApplyTableStyle", "CreateCustomTableStyle", "AddListItem", "AddNote", "RemoveNote", "Save", "SaveFile",
-          "Reopen", "OpenForeign", "Markdown", "RenderTemplate", "AddParagraph", "AddHeader", "AddFooter", "AddTable"]
+          "Reopen", "OpenForeign", "Markdown", "RenderTemplate", "AddParagraph", "AddHeader", "AddFooter", "AddTable",
+          "Switch", "Look"]
 
 # argument classes
 SMALL = dict(Lv={2, 9}, Maxes={3}, StyIds={"Quote", "C1", "Zz9"}, AddIds={"C1"}, ModIds={"Heading2", "C1"}, RmIds={"Heading2", "C1"},
              Tpls={"TableGrid"}, TblIds={"ab", "TS1"}, ListTypes={"bullet", "number"}, Shapes={"lists", "toc"}, Kinds={"all"},
-             ViasC={"AddStyle"}, HowsC={"mutate", "replace"}, FreshC={True})
+             ViasC={"AddStyle"}, HowsC={"mutate", "replace"}, FreshC={True}, OnIds={"Normal", "Heading2"}, NoteKinds={"fn", "en"},
+             Looks={"styles"})
 WIDE = dict(Lv=set(range(1, 10)), Maxes={1, 3, 9}, StyIds={"Quote", "Title", "Heading2", "C1", "Q1", "F1", "TOC2", "Zz9"},
             AddIds={"C1", "Q1", "TS1"}, ModIds={"Heading1", "Quote", "13", "C1", "F1", "Normal"}, RmIds={"Heading1", "Heading2", "Quote", "C1", "13"},
             Tpls={"TableNormal", "TableGrid", "TableList", "TableColorful1", "TableColorful2", "TableColorful3", "TableColumns1",
                   "TableColumns2", "TableColumns3", "TableRows1", "TableRows2", "TableRows3", "TablePlain1", "TablePlain2", "TablePlain3"},
             TblIds={"ab", "a1", "TS1", "FT1"}, ListTypes={"bullet", "number", "decimal", "lowerLetter", "upperLetter", "lowerRoman", "upperRoman"},
             Shapes={"plain", "lists", "listslow", "toc", "tbl", "nostyles"}, Kinds={"quote", "code", "heads", "all"},
-            ViasC={"AddStyle", "CreateCustomStyle", "CreateQuickStyle"}, HowsC={"mutate", "replace"}, FreshC={True, False})
+            ViasC={"AddStyle", "CreateCustomStyle", "CreateQuickStyle"}, HowsC={"mutate", "replace"}, FreshC={True, False},
+            OnIds={"Normal", "Heading1", "Quote", "C1", "Q1", "Zz9"}, NoteKinds={"fn", "en"}, Looks={"styles", "body", "parts"})
 
 
 def consts(ops, args, depth=0, maxsteps=0):
@@ -63,14 +82,22 @@ def gencfg(ctx, name, ops, args, depth):
 # focused alphabets explored exhaustively deeper than the whole alphabet:
 # (name, ops, argument classes, quick depth (0 = thorough only), thorough depth)
 GROUPS = [
-    ("styles", ["AddStyle", "ModifyStyle", "RemoveStyle", "SetStyle", "AddHeading", "Save", "SaveFile", "Reopen", "OpenForeign", "RenderTemplate"],
-     dict(SMALL, Lv={2}, StyIds={"C1"}, ModIds={"C1", "Heading2"}, RmIds={"C1"}, Shapes={"plain"}, HowsC={"replace"}, FreshC={False}), 3, 4),
+    ("styles", ["AddStyle", "ModifyStyle", "RemoveStyle", "SetStyle", "AddHeading", "Save", "Reopen", "OpenForeign", "RenderTemplate"],
+     dict(SMALL, Lv={2}, StyIds={"C1"}, ModIds={"C1", "Heading2"}, RmIds={"C1", "Heading2"}, OnIds={"Heading2"}, Shapes={"plain"},
+          HowsC={"replace"}, FreshC={False}), 3, 4),
+    # style hierarchies: custom on built-in, custom on custom; removal of a base that styled content depends on indirectly
+    ("hierarchy", ["AddStyle", "RemoveStyle", "SetStyle", "Save", "Reopen"],
+     dict(SMALL, AddIds={"C1", "C2"}, OnIds={"Heading2", "C1"}, RmIds={"C1", "Heading2"}, StyIds={"C2"}, FreshC={False}), 3, 4),
     ("toc", ["AddHeading", "GenerateTOC", "AutoGenerateTOC", "UpdateTOC", "TOCEntry", "RemoveStyle", "Reopen", "OpenForeign", "Markdown"],
      dict(SMALL, Lv={2}, Maxes={3}, RmIds={"14"}, Shapes={"toc"}, Kinds={"heads"}, FreshC={False}), 3, 4),
     ("registries", ["AddListItem", "AddNote", "Reopen", "OpenForeign"],
      dict(SMALL, ListTypes={"bullet"}, Shapes={"lists"}, FreshC={True}), 4, 5),
     ("registries2", ["AddListItem", "AddNote", "RemoveNote", "Reopen", "OpenForeign", "Save"],
      dict(SMALL, ListTypes={"bullet", "number"}, Shapes={"lists", "listslow"}, FreshC={True, False}), 0, 4),
+    # two documents alive in one process, each with its own notes / lists, operations interleaved (the kind of note
+    # rotates with the seed in the quick tier)
+    ("twodocs", ["AddNote", "RemoveNote", "AddListItem", "Switch", "Save"],
+     dict(SMALL, ListTypes={"bullet"}, NoteKinds={"fn"}), 4, 5),
     ("tables", ["AddStyle", "ApplyTableStyle", "CreateCustomTableStyle", "RemoveStyle", "Reopen", "OpenForeign", "Save"],
      dict(SMALL, AddIds={"TS1"}, RmIds={"TS1", "ab"}, Tpls={"TableGrid", "TableColorful2"}, TblIds={"ab", "TS1", "FT1"}, Shapes={"tbl"}, FreshC={False}), 0, 3),
 ]
@@ -104,25 +131,27 @@ def pipeline(ctx, cases_by=None):
         depths = {"all": 2}
         allc += ctx.tlc_gen("Defs_MC.tla", gencfg(ctx, "gen_bfs_all.cfg", ALLOPS, SMALL, 2), "bfsall")
         if not q:
-            ops3 = [o for o in ALLOPS if o not in ("AddParagraph", "AddHeader", "AddFooter", "AddTable", "SaveFile", "RemoveNote")]
-            allc += ctx.tlc_gen("Defs_MC.tla", gencfg(ctx, "gen_bfs_all3.cfg", ops3, SMALL, 3), "bfsall3")
+            ops3 = [o for o in ALLOPS if o not in ("AddParagraph", "AddHeader", "AddFooter", "AddTable", "SaveFile", "RemoveNote", "Look")]
+            allc += ctx.tlc_gen("Defs_MC.tla", gencfg(ctx, "gen_bfs_all3.cfg", ops3, dict(SMALL, OnIds={"Heading2"}), 3), "bfsall3")
             depths["all-without-idless-ops"] = 3
         # (2) every behaviour of each focused alphabet, deeper
         for name, ops, args, dq, dt in GROUPS:
             d2 = dq if q else dt
             if d2 == 0:
                 continue
+            if name == "twodocs":
+                args = dict(args, NoteKinds={"fn", "en"} if not q else ({"fn"} if ctx.seed % 2 else {"en"}))
             allc += ctx.tlc_gen("Defs_MC.tla", gencfg(ctx, "gen_bfs_%s.cfg" % name, ops, args, d2), "bfs" + name)
             depths[name] = d2
         ctx.exhaustive = True
         # (3) seeded random long behaviours over the wide argument classes
         d3 = 10 if q else 16
-        allc += ctx.tlc_gen("Defs_MC.tla", gencfg(ctx, "gen_sim.cfg", ALLOPS, WIDE, d3), "sim", mode="sim", num=6 if q else 30, depth=d3 + 1)
+        allc += ctx.tlc_gen("Defs_MC.tla", gencfg(ctx, "gen_sim.cfg", ALLOPS, WIDE, d3), "sim", mode="sim", num=6 if q else 14, depth=d3 + 1)
         count_ops(cnt, allc)
         # one execution + one judge run over everything (case ids are unique across generators)
         ctx.cases_by_tag["gen"] = {c["id"]: c for c in allc}
         judge(ctx, allc, "gen")
-        ctx.extra_cov["bounds"] = {"bfs_depths": depths, "sim_depth": d3, "variants_per_behaviour": 2,
+        ctx.extra_cov["bounds"] = {"bfs_depths": depths, "sim_depth": d3, "variants_per_behaviour": 3,
                                    "exhaustive_over": "operation sequences of the stated alphabets/argument classes up to the BFS depths"}
         ctx.extra_cov["op_counts"] = dict(cnt)
     else:
